@@ -61,18 +61,20 @@ def run(ctx):
         rp = json.load(open(ctx.replay)).get("replay", {})
         runs = [(rp.get("mode", "history"), rp.get("args", []), rp.get("env", {}))]
     else:
-        nh = 400 if quick else 6000
-        for lim in (0, 8192, 4096):        # the shipped limit (1 MiB) and lowered ones, so that both sides are reached cheaply
-            runs.append(("history", ["-n", str(nh if lim else nh // 2), "-seed", str(ctx.seed + lim), "-limit", str(lim)], {}))
+        nh = 1500 if quick else 20000
+        for lim in (0, 8192, 4096):        # the shipped limit (1 MiB; outputs up to 2 MiB, so fewer histories) and lowered ones: both sides are reached cheaply
+            runs.append(("history", ["-n", str(nh if lim else nh // 20), "-seed", str(ctx.seed + lim), "-limit", str(lim)] + ([] if lim else ["-maxlen", "25"]), {}))
         runs.append(("history", ["-n", str(nh // 2), "-seed", str(ctx.seed + 7), "-limit", "8192"], {"SONIC_ENCODER_USE_VM": "1"}))
-        runs.append(("into", ["-n", str(300 if quick else 1200)], {}))
+        runs.append(("into", ["-n", str(600 if quick else 2000)], {}))
         runs.append(("into", ["-n", str(150 if quick else 600)], {"SONIC_ENCODER_USE_VM": "1"}))
         runs.append(("alias", ["-n", str(300 if quick else 5000), "-seed", str(ctx.seed)], {}))
+        runs.append(("race", ["-n", str(3000 if quick else 60000), "-seed", str(ctx.seed), "-limit", "8192"], {"GOMAXPROCS": "4"}))
         runs.append(("alias", ["-n", str(100 if quick else 2000), "-seed", str(ctx.seed + 1)], {"SONIC_USE_OPTDEC": "1"}))
 
     tot = {"evaluations": 0, "nontrivial": 0, "calls": 0, "rechecks": 0}
     per_op, sizes, hist_lens, per_mode = {}, {}, {}, {}
     real = []
+    seen_known = {}
     t0 = time.time()
     procs = []
     for i, (mode, args, e) in enumerate(runs):
@@ -108,6 +110,10 @@ def run(ctx):
             if f["kind"] == "harness":
                 problems.append(("T", "harness: " + f["detail"]))
                 continue
+            kf = "KF-C06-optdec-number-aliases-input"
+            if (kf in known and e.get("SONIC_USE_OPTDEC") and f["kind"] == "input-aliased" and "Decoder with CopyString: fields [N] changed" in f["detail"]):
+                seen_known[kf] = f["detail"]
+                continue
             real.append(("%s: %s" % (f["kind"], f["detail"][:300]),
                          {"mode": mode, "args": args + ["-seed", str(f["seed"])] if mode == "history" else args, "env": e, "failure": f}))
     c.log("C06: run phase %.1fs" % (time.time() - t0))
@@ -125,6 +131,8 @@ def run(ctx):
     ctx.sample({"history": "seed-derived sequence such as: encoder.Encode[0x4] Rec(4096,'<'); sonic.Marshal string(8190,'a'); ast.Node.MarshalJSON(loaded) map(100,'é'); ..."})
     ctx.sample({"into": "value #28 (*main.Rec) opts 0x1 cap 37 len 3: no fault, output == reference, prefix kept"})
 
+    for k in sorted(seen_known):
+        ctx.known(k, known[k]["signature"][:200] + " :: " + seen_known[k][:160])
     shown = set()
     for what, payload in real:
         key = "".join(ch for ch in what[:40] if not ch.isdigit())
